@@ -2,7 +2,7 @@
 import json
 from . import common as C, arb
 
-ID, MASK, FIRST, STEP, CODE, NEV = range(6)
+ID, MASK, FIRST, STEP, CODE, NEV, LSTEP, LCODE = range(8)
 RELEVANT = 1 | 16          # changes, resources
 
 FIELDS = {11: "uid", 12: "generation-or-annotations", 13: "valid-hosts", 14: "minions", 15: "routes", 16: "ts-listener-port",
@@ -41,6 +41,12 @@ def judge(run, cases, rows):
                         "C03: replaying the changes returned by the real Configuration into an empty shadow, after step %d of case %d the shadow differs from "
                         "GetResources(): %s (%s)" % (r[STEP], c["id"], FIELDS.get(r[CODE], r[CODE]), json.dumps(describe(c, r[STEP]))[:500]),
                         theorem="Arb.Cases.shadow_run")
+        elif r[LSTEP] != 0:
+            ev = c["histories"][0]["events"][r[LSTEP] - 1]
+            run.failing({"kind": "stale-config", "field": FIELDS.get(10 + r[LCODE], str(r[LCODE])), "against": "current-globalconfiguration", "event_kind": ev["spec"]["kind"]}, [c],
+                        "C03: after step %d of case %d (%s) a resource in GetResources() carries listener ports / addresses that the current GlobalConfiguration (the listeners that passed "
+                        "validation) does not give it: %s; the change batches and GetResources() agree with each other, both are stale"
+                        % (r[LSTEP], c["id"], ev.get("note"), FIELDS.get(10 + r[LCODE], r[LCODE])), theorem="Arb.Cases.listeners_current_run")
         elif r[MASK] & RELEVANT:
             run.failing({"kind": "correspondence", "components": r[MASK] & RELEVANT}, [c],
                         "model and implementation disagree on changes/resources (mask %d, first step %d, case %d) while the shadow stays equal to the active set"
